@@ -17,6 +17,7 @@ import (
 	"path/filepath"
 	"sort"
 	"strings"
+	"sync/atomic"
 	"time"
 
 	"github.com/benbjohnson/litestream"
@@ -32,7 +33,7 @@ type F struct {
 }
 
 type HOp struct {
-	Op    string `json:"op"` // sync compact snapshot cascade l0ret probe racesnap (Arg = ms between starting Sync and calling Snapshot)
+	Op    string `json:"op"` // sync compact snapshot cascade l0ret probe racesnap (Arg = ms between starting Sync and calling Snapshot) racecommit (Arg 0 = commit from the sync hook, >0 = free-running committer)
 	Arg   int    `json:"arg,omitempty"`
 	Sleep int    `json:"sleep,omitempty"` // ms slept before the op
 	Size  int    `json:"size,omitempty"`  // racesnap: KB of the row whose sync the snapshot races with
@@ -114,6 +115,24 @@ func genHistory(rnd *hx.Rand, n int) HCase {
 	return h
 }
 
+// hookHandler is the DB's slog handler: when armed it runs fn once on the "sync" debug record that
+// DB.sync emits at its start (before it opens and scans the WAL) - a deterministic stand-in for
+// "the application commits while a sync is running".
+type hookHandler struct {
+	armed atomic.Bool
+	fn    func()
+}
+
+func (h *hookHandler) Enabled(context.Context, slog.Level) bool { return true }
+func (h *hookHandler) WithAttrs([]slog.Attr) slog.Handler       { return h }
+func (h *hookHandler) WithGroup(string) slog.Handler            { return h }
+func (h *hookHandler) Handle(_ context.Context, r slog.Record) error {
+	if r.Message == "sync" && h.armed.CompareAndSwap(true, false) {
+		h.fn()
+	}
+	return nil
+}
+
 type hist struct {
 	dir   string
 	sqldb *sql.DB
@@ -130,6 +149,13 @@ type hist struct {
 	lastPos int
 	hot     map[int]bool // TXIDs produced while a snapshot raced with the sync: always restore-probed
 	tswf    string       // first structural violation seen (reported after the direct oracle had its chance)
+	// commit-time ledger: row id -> wall-clock ms (minus base) read immediately BEFORE the commit was
+	// issued. (The instant the commit *returned* is not a sound bound: a sync may scan the WAL and stamp
+	// its file between SQLite writing the commit frame and Exec returning to the caller.)
+	cs         map[int]int
+	hotRows    map[int]bool // rows committed while a sync was running
+	hotChecked map[int]bool
+	hook       *hookHandler
 }
 
 func openHist(tmp string, h HCase) (*hist, error) {
@@ -137,14 +163,14 @@ func openHist(tmp string, h HCase) (*hist, error) {
 	if err != nil {
 		return nil, err
 	}
-	x := &hist{dir: dir, base: time.Now().UnixMilli() - 1000, t: map[int]int{}, seen: map[[3]int]bool{}, rowLo: map[int]int{}, hot: map[int]bool{}}
+	x := &hist{dir: dir, base: time.Now().UnixMilli() - 1000, t: map[int]int{}, seen: map[[3]int]bool{}, rowLo: map[int]int{}, hot: map[int]bool{}, cs: map[int]int{}, hotRows: map[int]bool{}, hotChecked: map[int]bool{}, hook: &hookHandler{}}
 	path := filepath.Join(dir, "db")
 	x.sqldb, err = sql.Open("sqlite", path)
 	if err != nil {
 		return nil, err
 	}
 	x.sqldb.SetMaxOpenConns(1)
-	for _, q := range []string{"PRAGMA journal_mode=wal", "PRAGMA wal_autocheckpoint=0", "CREATE TABLE t(id INTEGER PRIMARY KEY, v BLOB)"} {
+	for _, q := range []string{"PRAGMA journal_mode=wal", "PRAGMA wal_autocheckpoint=0", "PRAGMA busy_timeout=10000", "CREATE TABLE t(id INTEGER PRIMARY KEY, v BLOB)"} {
 		if _, err := x.sqldb.Exec(q); err != nil {
 			return nil, err
 		}
@@ -156,7 +182,7 @@ func openHist(tmp string, h HCase) (*hist, error) {
 	x.db.Replica.MonitorEnabled = false
 	x.store = litestream.NewStore([]*litestream.DB{x.db}, levelsN(h.LV))
 	x.store.Logger = quiet
-	x.db.SetLogger(quiet)
+	x.db.SetLogger(slog.New(x.hook))
 	x.store.SnapshotRetention = time.Millisecond
 	x.db.L0Retention = 0
 	if h.Retention {
@@ -409,6 +435,31 @@ func (x *hist) probe(drv *hx.Driver, res *hx.Result, rnd *hx.Rand, step int) (ki
 			cand[(tt+times[i-1])/2] = true
 		}
 	}
+	// prioritised probes: just after the stamp of every file produced while something raced with the
+	// sync, and at the commit instant of every row committed during a sync (newest first)
+	hotTs := map[int]bool{}
+	var hotN, hotR []int
+	for n := range x.hot {
+		hotN = append(hotN, n)
+	}
+	for id := range x.hotRows {
+		hotR = append(hotR, id)
+	}
+	sort.Sort(sort.Reverse(sort.IntSlice(hotN)))
+	sort.Sort(sort.Reverse(sort.IntSlice(hotR)))
+	for _, n := range hotN {
+		if tn, ok := x.t[n]; ok && len(hotTs) < 8 {
+			hotTs[tn+1], hotTs[tn] = true, true
+		}
+	}
+	for i, id := range hotR {
+		if i < 6 {
+			hotTs[x.cs[id]] = true
+		}
+	}
+	for T := range hotTs {
+		cand[T] = true
+	}
 	var Ts []int
 	for k := range cand {
 		if k > 0 {
@@ -417,7 +468,7 @@ func (x *hist) probe(drv *hx.Driver, res *hx.Result, rnd *hx.Rand, step int) (ki
 	}
 	sort.Ints(Ts)
 	prevE, prevT := 0, 0
-	restoreBudget, hotBudget := 5, 9
+	restoreBudget, hotBudget := 5, 16
 	for _, T := range Ts {
 		ts := time.UnixMilli(x.base + int64(T)).UTC()
 		infos, perr := litestream.CalcRestorePlan(ctx, x.fc, 0, ts, quiet)
@@ -464,12 +515,7 @@ func (x *hist) probe(drv *hx.Driver, res *hx.Result, rnd *hx.Rand, step int) (ki
 			return "disagreement", "C15/model-vs-impl-plan", fmt.Sprintf("step %d: impl=%q model=%q | %s", step, impl, model, line)
 		}
 		// Restore(Timestamp=T) == Restore(TXID=e)
-		hotT := false
-		for n := range x.hot {
-			if tn, ok := x.t[n]; ok && (T == tn || T == tn-1 || T == tn+1) {
-				hotT = true
-			}
-		}
+		hotT := hotTs[T]
 		if perr == nil && ((restoreBudget > 0 && (e != prevE || rnd.Chance(10)) && rnd.Chance(50)) || (hotT && hotBudget > 0)) {
 			if hotT {
 				hotBudget--
@@ -486,6 +532,9 @@ func (x *hist) probe(drv *hx.Driver, res *hx.Result, rnd *hx.Rand, step int) (ki
 				return "violation", "C15/restore-unreadable", fmt.Sprintf("step %d: Restore(Timestamp=%d) output cannot be queried: %v", step, T, merr)
 			} else if lo, ok := x.rowLo[m]; ok {
 				count("restore-content-checked")
+				if c, ok := x.cs[m]; ok && c >= T {
+					return "violation", "C15/future-commit", fmt.Sprintf("step %d: Restore(Timestamp=%d) returns app row %d whose commit was only issued at %d (>= T); plan %s; listing %s", step, T, m, c, impl, listing)
+				}
 				if tn, ok := x.t[lo]; ok && tn >= T {
 					return "violation", "C15/future-row", fmt.Sprintf("step %d: Restore(Timestamp=%d) returns app row %d, written in TXID >= %d whose L0 file is stamped %d (>= T); plan %s; listing %s", step, T, m, lo, tn, impl, listing)
 				}
@@ -504,6 +553,28 @@ func (x *hist) probe(drv *hx.Driver, res *hx.Result, rnd *hx.Rand, step int) (ki
 	}
 	if w := x.structural(fs, step); w != "" {
 		return "violation", "C15/tswf-broken", w
+	}
+	// structural oracle against the commit ledger: an L0 file is stamped no earlier than the instant
+	// the commit of any row it contains was issued (checked for the files produced under a race)
+	for _, n := range hotN {
+		if x.hotChecked[n] {
+			continue
+		}
+		tn, ok := x.t[n]
+		if !ok {
+			continue
+		}
+		img, rerr := x.restore("hot.db", n, -1)
+		if rerr != nil {
+			continue
+		}
+		x.hotChecked[n] = true
+		if m, merr := x.maxRow(img); merr == nil {
+			count("commit-stamp-checked")
+			if c, ok := x.cs[m]; ok && c > tn {
+				return "violation", "C15/stamp-before-commit", fmt.Sprintf("step %d: L0 file of TXID %d is stamped %d but contains app row %d whose commit was only issued at %d", step, n, tn, m, c)
+			}
+		}
 	}
 	return "", "", ""
 }
@@ -526,10 +597,12 @@ func runHistory(tmp string, drv *hx.Driver, h HCase, res *hx.Result) (kind, sig,
 		if x.rows%6 == 0 {
 			x.sqldb.Exec("DELETE FROM t WHERE id = (SELECT min(id) FROM t)")
 		}
-		if _, err := x.sqldb.Exec("INSERT INTO t(id, v) VALUES(?, ?)", x.rows, bytes.Repeat([]byte{byte(x.rows)}, n)); err != nil {
+		payload := bytes.Repeat([]byte{byte(x.rows)}, n)
+		x.rowLo[x.rows] = x.lastPos + 1
+		x.cs[x.rows] = int(time.Now().UnixMilli() - x.base) // read before the commit is issued
+		if _, err := x.sqldb.Exec("INSERT INTO t(id, v) VALUES(?, ?)", x.rows, payload); err != nil {
 			hx.Fatal(err)
 		}
-		x.rowLo[x.rows] = x.lastPos + 1
 	}
 	notePos := func() {
 		if pos, err := x.db.Pos(); err == nil {
@@ -590,6 +663,73 @@ func runHistory(tmp string, drv *hx.Driver, h HCase, res *hx.Result) (kind, sig,
 			default:
 				count("race-snapshot-won-lock")
 			}
+		case "racecommit":
+			// application commits while the real DB.Sync scans a long unsynced WAL
+			p0 := x.lastPos
+			x.sqldb.Exec("DELETE FROM t WHERE length(v) > 100000")
+			insert(op.Size * 1024) // the long WAL (hundreds to thousands of frames)
+			for j := 0; j < 40; j++ {
+				insert(50)
+			}
+			r0 := x.rows
+			if op.Arg == 0 {
+				// reproducible interleaving: commit from inside DB.sync's "sync" debug record
+				x.hook.fn = func() {
+					time.Sleep(2 * time.Millisecond)
+					insert(60)
+					time.Sleep(time.Millisecond)
+				}
+				x.hook.armed.Store(true)
+				if err := x.db.Sync(ctx); err != nil {
+					x.hook.armed.Store(false)
+					return "", "", ""
+				}
+				if x.hook.armed.Swap(false) {
+					count("racecommit-hook-not-fired")
+				} else {
+					count("racecommit-hook")
+				}
+			} else {
+				// free-running: commit in a loop while DB.Sync runs in another goroutine
+				done := make(chan error, 1)
+				go func() { done <- x.db.Sync(ctx) }()
+				var serr error
+			loop:
+				for j := 0; j < 400; j++ {
+					select {
+					case serr = <-done:
+						done = nil
+						break loop
+					default:
+					}
+					insert(60)
+					time.Sleep(time.Duration(op.Arg*50) * time.Microsecond)
+				}
+				if done != nil {
+					serr = <-done
+				}
+				if serr != nil {
+					return "", "", ""
+				}
+				count("racecommit-free")
+			}
+			if err := x.db.Sync(ctx); err != nil {
+				return "", "", ""
+			}
+			if err := x.db.Replica.Sync(ctx); err != nil {
+				return "", "", ""
+			}
+			notePos()
+			for n := p0 + 1; n <= x.lastPos; n++ {
+				x.hot[n] = true
+			}
+			for id := r0 + 1; id <= x.rows; id++ {
+				x.hotRows[id] = true
+			}
+			x.record(res, i)
+			if k, s, w := x.probe(drv, res, rnd, i); k != "" {
+				return k, s, w
+			}
 		case "compact":
 			if _, err := x.db.Compact(ctx, op.Arg); err == nil {
 				count("op-compact")
@@ -632,7 +772,15 @@ func genRace(rnd *hx.Rand, n int) HCase {
 	h := HCase{LV: 1 + rnd.Intn(2), Retention: false, ProbeSeed: rnd.Uint64()}
 	h.Ops = append(h.Ops, HOp{Op: "sync", Arg: 1, Sleep: 2})
 	for i := 0; i < n; i++ {
-		h.Ops = append(h.Ops, HOp{Op: "racesnap", Arg: rnd.Intn(4), Size: 1024 + rnd.Intn(3)*1024, Sleep: 3})
+		if rnd.Chance(50) {
+			h.Ops = append(h.Ops, HOp{Op: "racesnap", Arg: rnd.Intn(4), Size: 1024 + rnd.Intn(3)*1024, Sleep: 3})
+		} else {
+			mode := 0
+			if rnd.Chance(40) {
+				mode = 1 + rnd.Intn(3)
+			}
+			h.Ops = append(h.Ops, HOp{Op: "racecommit", Arg: mode, Size: 2048 + rnd.Intn(3)*1024, Sleep: 3})
+		}
 		switch rnd.Intn(5) {
 		case 0:
 			h.Ops = append(h.Ops, HOp{Op: "sync", Arg: 1, Sleep: 2})
@@ -703,7 +851,7 @@ func main() {
 
 	res := hx.NewResult(o, "c15")
 	res.Rule = "one case = one (real listing, timestamp T) probe of CalcRestorePlan; counts as non-trivial when a plan is returned (distinct by listing and T)"
-	nHist, hLen, nRace, rLen := 28, 28, 6, 4
+	nHist, hLen, nRace, rLen := 26, 28, 8, 4
 	if o.Tier == "thorough" {
 		nHist, hLen, nRace, rLen = 300, 45, 40, 6
 	}
@@ -776,7 +924,7 @@ func main() {
 		}
 		report(k, s, what, h)
 	}
-	res.Notes = append(res.Notes, "real SQLite+DB+Store histories (sync/compact/snapshot, with and without retention at 1 ms thresholds); ledger = header timestamp of each L0 file; race stream: DB.Snapshot() called 0-3 ms after a DB.Sync of a 1-3 MB commit was started in another goroutine; structural oracle (file stamped >= every contained TXID's L0 stamp) after every operation; content oracle (newest app row of Restore(Timestamp=T) belongs to a TXID stamped < T); probes at t-1,t,t+1 and midpoints of every recorded header time and mtime")
+	res.Notes = append(res.Notes, "real SQLite+DB+Store histories (sync/compact/snapshot, with and without retention at 1 ms thresholds); ledger = header timestamp of each L0 file; race stream: DB.Snapshot() called 0-3 ms after a DB.Sync of a 1-3 MB commit was started in another goroutine; racecommit: application commits while DB.Sync scans a 2-4 MB unsynced WAL (from DB.sync's own debug record, or free-running), commit instants recorded per row; structural oracles (file stamped >= every contained TXID's L0 stamp, L0 stamp >= commit instant of its rows); content oracle (newest app row of Restore(Timestamp=T) belongs to a TXID stamped < T); probes at t-1,t,t+1 and midpoints of every recorded header time and mtime")
 	if err := res.Write(o.Out); err != nil {
 		hx.Fatal(err)
 	}
